@@ -260,6 +260,11 @@ func (x *runner) maint(i int, st Step) {
 		return
 	}
 	n := x.r.Node(st.N)
+	if len(n.VerifSucc()) == 0 {
+		// the periodic tasks of a node start once its successor list is installed (Create / Join) - before that there is no round to run
+		x.emit(i, st, "", "skipped", "the node has no successor list: its periodic tasks are not running")
+		return
+	}
 	done := make(chan error, 1)
 	go func() {
 		var err error
